@@ -300,6 +300,247 @@ Proof.
   - cbn [nw_add]. destruct (node_eqb k0 k) eqn:E.
     + apply node_eqb_eq in E. subst k0. rewrite !weight_at_cons. destruct (node_eqb k k'); lra.
     + rewrite !weight_at_cons. destruct (node_eqb k0 k') eqn:E'.
-      * apply node_eqb_eq in E'. subst k0. rewrite node_eqb_sym_false; [lra|exact E].
+      * apply node_eqb_eq in E'. subst k0. destruct (node_eqb k k') eqn:E2; [|lra].
+        apply node_eqb_eq in E2. subst k'. rewrite node_eqb_refl in E. discriminate.
       * apply IH.
 Qed.
+
+Lemma nw_add_keys : forall acc k w,
+  map fst (nw_add acc k w) = if existsb (node_eqb k) (map fst acc) then map fst acc else map fst acc ++ [k].
+Proof.
+  induction acc as [|[k0 v] acc IH]; intros k w.
+  - reflexivity.
+  - cbn [nw_add map fst existsb]. destruct (node_eqb k0 k) eqn:E.
+    + apply node_eqb_eq in E. subst k0. rewrite node_eqb_refl. reflexivity.
+    + assert (E' : node_eqb k k0 = false).
+      { apply node_eqb_false. apply node_eqb_false in E. congruence. }
+      rewrite E'. cbn [orb map fst]. rewrite IH.
+      destruct (existsb (node_eqb k) (map fst acc)); reflexivity.
+Qed.
+
+Lemma nw_add_NoDup : forall acc k w, NoDup (map fst acc) -> NoDup (map fst (nw_add acc k w)).
+Proof.
+  intros acc k w H. rewrite nw_add_keys. destruct (existsb (node_eqb k) (map fst acc)) eqn:E; [exact H|].
+  apply NoDup_app_intro; [exact H|constructor; [intros []|constructor]|].
+  intros x Hx [<-|[]]. apply existsb_node_In in Hx. congruence.
+Qed.
+
+Lemma nw_add_keys_inv : forall acc k w x, In x (map fst (nw_add acc k w)) -> In x (map fst acc) \/ x = k.
+Proof.
+  intros acc k w x H. rewrite nw_add_keys in H.
+  destruct (existsb (node_eqb k) (map fst acc)); [left; exact H|].
+  apply in_app_or in H. destruct H as [H|[<-|[]]]; [left; exact H|right; reflexivity].
+Qed.
+
+Lemma nw_add_sum : forall acc k w, (qsum (map snd (nw_add acc k w)) == qsum (map snd acc) + w)%Q.
+Proof.
+  induction acc as [|[k0 v] acc IH]; intros k w.
+  - cbn [nw_add map snd]. rewrite !qsum_cons, qsum_nil. lra.
+  - cbn [nw_add]. destruct (node_eqb k0 k); cbn [map snd]; rewrite !qsum_cons; [lra|].
+    rewrite IH. lra.
+Qed.
+
+Section LoadFold.
+Variable nodes : list node.
+Let step := fun (acc : list (node * Q)) (kw : node * Q) =>
+  if existsb (node_eqb (fst kw)) nodes then nw_add acc (fst kw) (snd kw) else acc.
+
+Lemma load_fold_NoDup : forall ks acc, NoDup (map fst acc) -> NoDup (map fst (fold_left step ks acc)).
+Proof.
+  induction ks as [|kw ks IH]; intros acc H; cbn [fold_left]; [exact H|].
+  apply IH. unfold step. destruct (existsb (node_eqb (fst kw)) nodes); [apply nw_add_NoDup|]; exact H.
+Qed.
+
+Lemma load_fold_keys_inv : forall ks acc x, In x (map fst (fold_left step ks acc)) ->
+  In x (map fst acc) \/ In x (map fst ks).
+Proof.
+  induction ks as [|kw ks IH]; intros acc x H; cbn [fold_left] in H; [left; exact H|].
+  destruct (IH _ x H) as [H1|H1].
+  - unfold step in H1. destruct (existsb (node_eqb (fst kw)) nodes).
+    + apply nw_add_keys_inv in H1. destruct H1 as [H1| ->]; [left; exact H1|right; left; reflexivity].
+    + left. exact H1.
+  - right. right. exact H1.
+Qed.
+
+Lemma load_fold_sum : forall ks acc, (forall kw, In kw ks -> In (fst kw) nodes) ->
+  (qsum (map snd (fold_left step ks acc)) == qsum (map snd acc) + qsum (map snd ks))%Q.
+Proof.
+  induction ks as [|kw ks IH]; intros acc H; cbn [fold_left map].
+  - rewrite qsum_nil. lra.
+  - rewrite IH; [|intros x Hx; apply H; right; exact Hx]. unfold step.
+    assert (E : existsb (node_eqb (fst kw)) nodes = true).
+    { apply existsb_node_In. apply H. left. reflexivity. }
+    rewrite E, nw_add_sum, qsum_cons. lra.
+Qed.
+
+Lemma load_fold_weight : forall ks acc k, (forall kw, In kw ks -> In (fst kw) nodes) ->
+  (weight_at (fold_left step ks acc) k ==
+   weight_at acc k + qsum (map snd (filter (fun kw => node_eqb (fst kw) k) ks)))%Q.
+Proof.
+  induction ks as [|kw ks IH]; intros acc k H; cbn [fold_left filter].
+  - cbn [map]. rewrite qsum_nil. lra.
+  - rewrite IH; [|intros x Hx; apply H; right; exact Hx]. unfold step.
+    assert (E : existsb (node_eqb (fst kw)) nodes = true).
+    { apply existsb_node_In. apply H. left. reflexivity. }
+    rewrite E, weight_at_nw_add. destruct (node_eqb (fst kw) k); cbn [map]; rewrite ?qsum_cons; lra.
+Qed.
+End LoadFold.
+
+Section WithCand.
+Variable cand : Type.
+Variable ceqb : cand -> cand -> bool.
+Hypothesis ceqb_spec : forall a b, reflect (a = b) (ceqb a b).
+
+Notation ballot := (ballot cand).
+Notation profile := (profile cand).
+Notation pos_of := (pos_of cand ceqb).
+Notation spec_ballot_node := (spec_ballot_node cand ceqb).
+Notation linear_ballot := (linear_ballot cand).
+
+Lemma pos_of_In : forall c cs, In c cs ->
+  1 <= pos_of c cs <= length cs /\ nth_error cs (pos_of c cs - 1) = Some c.
+Proof.
+  intros c cs. induction cs as [|x cs IH]; intros H; [destruct H|].
+  cbn [MetricSpec.pos_of length]. destruct (ceqb_spec c x) as [->|Hne].
+  - split; [lia|reflexivity].
+  - destruct H as [->|H]; [contradiction Hne; reflexivity|].
+    destruct (IH H) as [Hr Hn]. destruct (pos_of c cs) as [|i] eqn:E; [lia|].
+    split; [lia|]. cbn [Nat.sub] in Hn |- *. rewrite Nat.sub_0_r in Hn.
+    destruct i; cbn [nth_error]; exact Hn.
+Qed.
+
+Lemma pos_of_inj : forall cs c c', In c cs -> In c' cs -> pos_of c cs = pos_of c' cs -> c = c'.
+Proof.
+  intros cs c c' H H' E. destruct (pos_of_In c cs H) as [_ Hn]. destruct (pos_of_In c' cs H') as [_ Hn'].
+  rewrite E in Hn. congruence.
+Qed.
+
+Lemma index_of_pos_of : forall c cs i,
+  index_of cand ceqb c cs i = match pos_of c cs with O => None | S j => Some (j + i) end.
+Proof.
+  intros c cs. induction cs as [|x cs IH]; intros i; cbn [index_of MetricSpec.pos_of].
+  - reflexivity.
+  - destruct (ceqb c x); [reflexivity|]. rewrite IH. destruct (pos_of c cs) as [|j]; [reflexivity|].
+    f_equal. lia.
+Qed.
+
+Lemma index_of_In : forall c cs, In c cs -> index_of cand ceqb c cs 1 = Some (pos_of c cs).
+Proof.
+  intros c cs H. rewrite index_of_pos_of. destruct (pos_of_In c cs H) as [Hr _].
+  destruct (pos_of c cs) as [|j]; [lia|]. f_equal. lia.
+Qed.
+
+Definition nums_of (cs : list cand) (b : ballot) : list nat :=
+  map (fun c => pos_of c cs) (flat cand (rk b)).
+
+Lemma spec_ballot_node_unfold : forall cs b,
+  spec_ballot_node cs b =
+  if Nat.eqb (length (nums_of cs b)) (length cs - 1)
+  then nums_of cs b ++ missing (length cs) (nums_of cs b) else nums_of cs b.
+Proof. reflexivity. Qed.
+
+Lemma nums_of_props : forall cs b, NoDup cs -> linear_ballot cs b ->
+  NoDup (nums_of cs b) /\ (forall x, In x (nums_of cs b) -> 1 <= x <= length cs) /\
+  1 <= length (nums_of cs b) <= length cs /\
+  Forall2 (fun c i => 1 <= i /\ nth_error cs (i - 1) = Some c) (flat cand (rk b)) (nums_of cs b).
+Proof.
+  intros cs b Hcs [Hne [Hsingle [Hnd Hincl]]]. unfold nums_of.
+  assert (Hr : forall x, In x (map (fun c => pos_of c cs) (flat cand (rk b))) -> 1 <= x <= length cs).
+  { intros x Hx. apply in_map_iff in Hx. destruct Hx as [c [<- Hc]].
+    apply (pos_of_In c cs). apply Hincl. exact Hc. }
+  assert (Hnd' : NoDup (map (fun c => pos_of c cs) (flat cand (rk b)))).
+  { apply NoDup_map_inj_in; [|exact Hnd]. intros x y Hx Hy. apply pos_of_inj; apply Hincl; assumption. }
+  split; [exact Hnd'|]. split; [exact Hr|]. split.
+  - split.
+    + rewrite map_length. destruct (rk b) as [|s r]; [contradiction Hne; reflexivity|].
+      inversion Hsingle as [|s' r' Hs _]; subst. unfold flat. cbn [concat]. rewrite app_length. lia.
+    + rewrite <- (seq_length (length cs) 1). apply NoDup_incl_length; [exact Hnd'|].
+      intros x Hx. apply in_seq. specialize (Hr x Hx). lia.
+  - clear Hnd Hnd' Hr. induction (flat cand (rk b)) as [|c l IH]; cbn [map]; constructor.
+    + destruct (pos_of_In c cs (Hincl c (or_introl eq_refl))) as [[H1 _] H2]. split; assumption.
+    + apply IH. intros x Hx. apply Hincl. right. exact Hx.
+Qed.
+
+Lemma spec_ballot_node_valid : forall cs b, NoDup cs -> linear_ballot cs b ->
+  valid_node (length cs) (spec_ballot_node cs b).
+Proof.
+  intros cs b Hcs Hb. destruct (nums_of_props cs b Hcs Hb) as [Hnd [Hr [Hlen _]]].
+  rewrite spec_ballot_node_unfold. set (nums := nums_of cs b) in *. set (n := length cs) in *.
+  destruct (Nat.eqb (length nums) (n - 1)) eqn:E.
+  - apply Nat.eqb_eq in E. pose proof (completed_perm n nums Hnd Hr) as Hp.
+    pose proof (completed_length n nums Hnd Hr) as Hl. unfold valid_node. split.
+    + apply (Permutation_NoDup (Permutation_sym Hp)). apply seq_NoDup.
+    + split.
+      * intros x Hx. apply (Permutation_in _ Hp) in Hx. apply in_seq in Hx. lia.
+      * rewrite app_length. lia.
+  - apply Nat.eqb_neq in E. unfold valid_node. repeat split; try assumption; try lia; apply Hr; assumption.
+Qed.
+
+(* the node of a ballot, declaratively *)
+Lemma spec_ballot_node_positions : forall cs b, NoDup cs -> linear_ballot cs b ->
+  exists nums,
+    Forall2 (fun c i => 1 <= i /\ nth_error cs (i - 1) = Some c) (flat cand (rk b)) nums /\
+    ((length nums <> length cs - 1 /\ spec_ballot_node cs b = nums) \/
+     (length nums = length cs - 1 /\
+      exists m, 1 <= m <= length cs /\ ~ In m nums /\ spec_ballot_node cs b = nums ++ [m])).
+Proof.
+  intros cs b Hcs Hb. destruct (nums_of_props cs b Hcs Hb) as [Hnd [Hr [Hlen Hpos]]].
+  exists (nums_of cs b). split; [exact Hpos|]. rewrite spec_ballot_node_unfold.
+  destruct (Nat.eqb (length (nums_of cs b)) (length cs - 1)) eqn:E.
+  - apply Nat.eqb_eq in E. right. split; [exact E|].
+    pose proof (completed_length (length cs) (nums_of cs b) Hnd Hr) as Hl.
+    destruct (missing (length cs) (nums_of cs b)) as [|m [|m' t]] eqn:Em; cbn [length] in Hl; try lia.
+    exists m. assert (Hm : In m (missing (length cs) (nums_of cs b))) by (rewrite Em; left; reflexivity).
+    apply missing_In in Hm. destruct Hm as [Hm1 Hm2]. repeat split; try assumption; lia.
+  - apply Nat.eqb_neq in E. left. split; [exact E|reflexivity].
+Qed.
+
+Lemma ballot_node_linear : forall cs b, linear_ballot cs b ->
+  ballot_node cand ceqb cs true b = inl (spec_ballot_node cs b).
+Proof.
+  intros cs b [Hne [Hsingle [Hnd Hincl]]]. unfold ballot_node.
+  destruct (rk b) as [|s r] eqn:Er; [contradiction Hne; reflexivity|].
+  assert (Hties : existsb (fun s0 => Nat.ltb 1 (length s0)) (s :: r) = false).
+  { destruct (existsb (fun s0 => Nat.ltb 1 (length s0)) (s :: r)) eqn:E; [|reflexivity].
+    apply existsb_exists in E. destruct E as [g [Hg Hlt]]. rewrite Forall_forall in Hsingle.
+    rewrite (Hsingle g Hg) in Hlt. discriminate. }
+  rewrite Hties.
+  rewrite (rmap_total _ _ _ (fun c => pos_of c cs) (flat cand (s :: r))).
+  - unfold rbind. rewrite andb_true_r. rewrite spec_ballot_node_unfold. unfold nums_of. rewrite Er.
+    unfold missing.
+    destruct (Nat.eqb (length (map (fun c => pos_of c cs) (flat cand (s :: r)))) (length cs - 1));
+      reflexivity.
+  - intros c Hc. rewrite (index_of_In c cs); [reflexivity|]. apply Hincl. exact Hc.
+Qed.
+
+Theorem load_total_gen : forall p : profile,
+  (forall k, valid_node (length (cands p)) k -> In k (g_nodes (build_graph (length (cands p))))) ->
+  NoDup (cands p) -> Forall (linear_ballot (cands p)) (ballots p) ->
+  exists ws, node_weights cand ceqb p true = inl ws /\
+    NoDup (map fst ws) /\
+    (qsum (map snd ws) == total_wt cand (ballots p))%Q /\
+    (forall k, (weight_at ws k ==
+                qsum (map wt (filter (fun b => node_eqb (spec_ballot_node (cands p) b) k) (ballots p))))%Q) /\
+    (forall k, In k (map fst ws) -> exists b, In b (ballots p) /\ k = spec_ballot_node (cands p) b).
+Proof.
+  intros p Hg Hcs Hbs. unfold node_weights. rewrite Forall_forall in Hbs.
+  rewrite (rmap_total _ _ _ (fun b => (spec_ballot_node (cands p) b, wt b)) (ballots p)).
+  2:{ intros b Hb. rewrite (ballot_node_linear _ b (Hbs b Hb)). reflexivity. }
+  unfold rbind. eexists. split; [reflexivity|].
+  set (nodes := g_nodes (build_graph (length (cands p)))).
+  set (ks := map (fun b => (spec_ballot_node (cands p) b, wt b)) (ballots p)).
+  assert (Hin : forall kw, In kw ks -> In (fst kw) nodes).
+  { intros kw Hkw. apply in_map_iff in Hkw. destruct Hkw as [b [<- Hb]]. cbn [fst].
+    apply Hg. apply spec_ballot_node_valid; [exact Hcs|apply Hbs; exact Hb]. }
+  split; [apply load_fold_NoDup; constructor|]. split.
+  - rewrite (load_fold_sum nodes ks [] Hin). cbn [map]. rewrite qsum_nil. unfold ks.
+    rewrite map_map. cbn [snd]. unfold Core.total_wt. rewrite Qplus_0_l. reflexivity.
+  - split.
+    + intros k. rewrite (load_fold_weight nodes ks [] k Hin). unfold weight_at at 1. cbn [find].
+      unfold ks. rewrite filter_map_comm, map_map. cbn [fst snd]. rewrite Qplus_0_l. reflexivity.
+    + intros k Hk. apply load_fold_keys_inv in Hk. destruct Hk as [[]|Hk]. unfold ks in Hk.
+      rewrite map_map in Hk. cbn [fst] in Hk. apply in_map_iff in Hk. destruct Hk as [b [<- Hb]].
+      exists b. split; [exact Hb|reflexivity].
+Qed.
+
+End WithCand.
